@@ -788,6 +788,76 @@ func (c *cliFront) plan(h *heapRun, o *obj, st Step) (*cliCall, string) {
 			return nil, "bag"
 		}
 		return &cliCall{argv: []string{"transpose"}}, ""
+	case "ShuffleSites":
+		if !needsAlign() {
+			return nil, "bag"
+		}
+		rf := filepath.Join(c.dir, "rogues.txt")
+		os.Remove(rf)
+		argv := []string{"shuffle", "sites", "--seed", strconv.Itoa(ai(a, "seed")), "--rate=" + fstr(afrac(a, "rp", "rq")), "--rogue=" + fstr(afrac(a, "gp", "gq")), "--rogue-file", rf}
+		if ab(a, "first") {
+			argv = append(argv, "--stable-rogues")
+		}
+		return &cliCall{argv: argv, ret: func(stdout, stderr string, ret map[string]interface{}) bool {
+			b, err := os.ReadFile(rf)
+			if err != nil {
+				return false
+			}
+			names := [][]int{}
+			for _, l := range strings.Split(strings.TrimSuffix(string(b), "\n"), "\n") {
+				if len(b) == 0 {
+					break
+				}
+				names = append(names, s2i(l))
+			}
+			ret["rogues"] = names
+			return true
+		}}, ""
+	case "SimulateRogue":
+		if !needsAlign() {
+			return nil, "bag"
+		}
+		rf := filepath.Join(c.dir, "rogues.txt")
+		os.Remove(rf)
+		argv := []string{"shuffle", "rogue", "--seed", strconv.Itoa(ai(a, "seed")), "--prop-seq=" + fstr(afrac(a, "pp", "pq")), "--length=" + fstr(afrac(a, "lp", "lq")), "--rogue-file", rf}
+		return &cliCall{argv: argv, ret: func(stdout, stderr string, ret map[string]interface{}) bool {
+			b, err := os.ReadFile(rf)
+			if err != nil {
+				return false
+			}
+			rog := [][]int{}
+			isRog := map[string]bool{}
+			for _, l := range strings.Split(strings.TrimSuffix(string(b), "\n"), "\n") {
+				if len(b) == 0 {
+					break
+				}
+				rog = append(rog, s2i(l))
+				isRog[l] = true
+			}
+			// the command prints the rogue names only: the others are the intact ones; "nothing was done" (the library's
+			// nil answer for proportions outside [0,1]) is not printed either and is taken from the arguments
+			intact := [][]int{}
+			o.sb.IterateChar(func(name string, sq []uint8) bool {
+				if !isRog[name] {
+					intact = append(intact, s2i(name))
+				}
+				return false
+			})
+			pp, pq, lp, lq := ai(a, "pp"), ai(a, "pq"), ai(a, "lp"), ai(a, "lq")
+			ret["nil"] = pp < 0 || pp > pq || lp < 0 || lp > lq
+			ret["rogue"], ret["intact"] = rog, intact
+			return true
+		}}, ""
+	case "BuildBootstrap":
+		if !needsAlign() {
+			return nil, "bag"
+		}
+		old, _ := filepath.Glob(filepath.Join(c.dir, "boot_*"))
+		for _, f := range old {
+			os.Remove(f)
+		}
+		return &cliCall{argv: []string{"build", "seqboot", "-n", "1", "--seed", strconv.Itoa(ai(a, "seed")), "--frac=" + fstr(afrac(a, "fp", "fq")),
+			"-o", filepath.Join(c.dir, "boot_")}, files: []string{filepath.Join(c.dir, "boot_0.fa")}}, ""
 	case "Concat", "Append":
 		// the other alignment goes through a second file (same --alphabet for both)
 		oo := h.get(ai(a, "other"))
